@@ -452,7 +452,9 @@ class ModelClient:
         if len(duplicate_units) > 0:
             raise ModelClientException(f"At least one unit appears twice: {duplicate_units}")
 
-        self.results_handler = ModelResultsHandler(
+        # the results of this run are published on the client only once they are complete (see the end of this method): if a
+        # model step fails, a later national summary must not find a half-filled handler of the failed run
+        results_handler = ModelResultsHandler(
             aggregates, prediction_intervals, reporting_units, nonreporting_units, unexpected_units
         )
 
@@ -460,29 +462,29 @@ class ModelClient:
             unit_predictions, unit_turnout_predictions = self.model.get_unit_predictions(
                 reporting_units, nonreporting_units, estimand, unexpected_units=unexpected_units
             )
-            self.results_handler.add_unit_predictions(estimand, unit_predictions)
+            results_handler.add_unit_predictions(estimand, unit_predictions)
             if unit_turnout_predictions is not None:
-                self.results_handler.add_unit_turnout_predictions(unit_turnout_predictions)
+                results_handler.add_unit_turnout_predictions(unit_turnout_predictions)
 
             # gets prediciton intervals for each alpha
             alpha_to_unit_prediction_intervals = {}
             for alpha in prediction_intervals:
                 alpha_to_unit_prediction_intervals[alpha] = self.model.get_unit_prediction_intervals(
-                    self.results_handler.reporting_units, self.results_handler.nonreporting_units, alpha, estimand
+                    results_handler.reporting_units, results_handler.nonreporting_units, alpha, estimand
                 )
                 if isinstance(self.model, ConformalElectionModel):
                     self.all_conformalization_data_unit_dict[alpha][
                         estimand
                     ] = self.model.get_all_conformalization_data_unit()
 
-            self.results_handler.add_unit_intervals(estimand, alpha_to_unit_prediction_intervals)
+            results_handler.add_unit_intervals(estimand, alpha_to_unit_prediction_intervals)
 
-            for aggregate in self.results_handler.aggregates:
+            for aggregate in results_handler.aggregates:
                 aggregate_list = self.get_aggregate_list(self.office, aggregate)
                 estimates_df = self.model.get_aggregate_predictions(
-                    self.results_handler.reporting_units,
-                    self.results_handler.nonreporting_units,
-                    self.results_handler.unexpected_units,
+                    results_handler.reporting_units,
+                    results_handler.nonreporting_units,
+                    results_handler.unexpected_units,
                     aggregate_list,
                     estimand,
                     lhs_called_contests=lhs_called_contests,
@@ -491,9 +493,9 @@ class ModelClient:
                 alpha_to_agg_prediction_intervals = {}
                 for alpha in prediction_intervals:
                     alpha_to_agg_prediction_intervals[alpha] = self.model.get_aggregate_prediction_intervals(
-                        self.results_handler.reporting_units,
-                        self.results_handler.nonreporting_units,
-                        self.results_handler.unexpected_units,
+                        results_handler.reporting_units,
+                        results_handler.nonreporting_units,
+                        results_handler.unexpected_units,
                         aggregate_list,
                         alpha,
                         alpha_to_unit_prediction_intervals[alpha],
@@ -508,16 +510,17 @@ class ModelClient:
                         ] = self.model.get_all_conformalization_data_agg()
 
                 # get all of the prediction intervals here
-                self.results_handler.add_agg_predictions(
+                results_handler.add_agg_predictions(
                     estimand, aggregate, estimates_df, alpha_to_agg_prediction_intervals
                 )
 
-        self.results_handler.process_final_results()
+        results_handler.process_final_results()
+        self.results_handler = results_handler
 
         if APP_ENV != "local" and self.save_results:
-            self.results_handler.write_data(self.election_id, self.office, self.geographic_unit_type)
+            results_handler.write_data(self.election_id, self.office, self.geographic_unit_type)
 
-        return self.results_handler.final_results
+        return results_handler.final_results
 
 
 class HistoricalModelClient(ModelClient):
